@@ -235,12 +235,17 @@ def sortGroup (cols : List String) (g : List Row) : Except Err (List Row) :=
   else .ok g
 
 /-- the value of field `f` from its entries in a group of rows (already scenario-sorted): one row →
-the scalar (NaN → absent), several rows → the sample array; an object array of `None` makes the
-constructor's `astype(float64)` raise -/
+the scalar (NaN → absent); several rows → absent when EVERY row lacks it (fix D24: a field the cell
+does not have is empty in every scenario row), else the sample array. A field missing in SOME of several
+rows gives `np.array([1.0, None])`, an object array the constructor keeps as it is (numpy's object →
+float64 `astype` turns `None` into nan and `Cell.__init__` discards the converted array): `Val` has no such
+value, the `.error .typeError` below only marks "outside the model" — the writers never produce such rows
+(a sample array has the cell's common length) -/
 def assembleField (f : String) (es : List (Option Rat)) : Except Err (Option (String × Val)) :=
   match es with
   | [e] => .ok (e.map fun q => (f, Val.flt q))
-  | _ => if es.all Option.isSome then .ok (some (f, Val.arr false [es.length] (es.filterMap id)))
+  | _ => if es.all Option.isNone then .ok none
+         else if es.all Option.isSome then .ok (some (f, Val.arr false [es.length] (es.filterMap id)))
          else .error .typeError
 
 def groupFieldVal (g : List Row) (f : String) : Except Err (Option (String × Val)) :=
